@@ -63,7 +63,8 @@ func relative(from uintptr, to uintptr) bool {
 	}
 
 	// 跨度大于2G 时
-	relative := delta <= 0x7fffffff
+	// rel32 is measured from the end of the 5-byte jmp: jumping backwards needs -(delta+5) >= -2^31
+	relative := delta <= 0x7fffffff-4
 
 	if delta < 0 {
 		delta = -delta
